@@ -7,9 +7,28 @@ import (
 
 // leaf returns a leaf of a chosen kind with a small symbolic value, so that
 // equality between leaves of the two trees is decided by the solver.
+// leafSeen counts the leaves made per tree tag: only the first leaf of a tree
+// may also be a uint64 (small, or beyond the int64 range), which keeps the
+// number of kind combinations down.
+var leafSeen = map[string]int{}
+
 func diffLeaf(tag string) any {
 	v := vx.IntIn(tag, -2, 1)
-	switch vx.Choose(tag+"-kind", vx.Param("LEAFKINDS", 4)) {
+	kinds := vx.Param("LEAFKINDS", 4)
+	extra := 0
+	if leafSeen[tag] == 0 && vx.Param("UINT", 1) == 1 {
+		extra = 1
+	}
+	leafSeen[tag]++
+	k := vx.Choose(tag+"-kind", kinds+extra)
+	if k >= kinds {
+		// uint64: small (equal to the ints of the same value) or beyond int64
+		if vx.Choose(tag+"-big", 2) == 0 {
+			return uint64(1) << 63
+		}
+		return uint64(v + 2)
+	}
+	switch k {
 	case 0:
 		return int64(v)
 	case 1:
@@ -26,6 +45,26 @@ func diffLeaf(tag string) any {
 		return -1.5
 	}
 	return string([]byte{'a' + byte(v+2)})
+}
+
+func hasBigUint(v any) bool {
+	switch tv := v.(type) {
+	case uint64:
+		return tv >= 1<<63
+	case []any:
+		for _, e := range tv {
+			if hasBigUint(e) {
+				return true
+			}
+		}
+	case map[string]any:
+		for _, e := range tv {
+			if hasBigUint(e) {
+				return true
+			}
+		}
+	}
+	return false
 }
 
 // symKey is "a" or "b", decided by the solver.
@@ -162,6 +201,7 @@ func bothContainers(a, b any, p []any) bool {
 // un-ignored difference; every differing leaf lies under a reported path
 // or an ignore path; Compare agrees with Diff.
 func VerifC19_Diff() {
+	leafSeen = map[string]int{}
 	pair := diffPairs[vx.Choose("shapes", len(diffPairs))]
 	nign := vx.Choose("nign", vx.Param("MAXIGN", 2)+1)
 	var ignores []Path
@@ -228,7 +268,7 @@ func VerifC19_Diff() {
 		vx.Assert("compare-in-diff", in)
 	}
 	// the same trees held as gen nodes
-	if vx.Param("GEN", 1) == 1 {
+	if vx.Param("GEN", 1) == 1 && !hasBigUint(a) && !hasBigUint(b) { // (gen.Int cannot hold a uint64 beyond int64)
 		ga, gb := Generify(a), Generify(b)
 		var gd []Path
 		var gcmp Path
@@ -258,6 +298,7 @@ func VerifC19_Diff() {
 
 // VerifC19_Match: Match(f, t) against the reference.
 func VerifC19_Match() {
+	leafSeen = map[string]int{}
 	pair := diffPairs[vx.Choose("shapes", len(diffPairs))]
 	f := diffTree("a", pair[0])
 	t := diffTree("b", pair[1])
